@@ -944,6 +944,18 @@ impl Databases {
         }
     }
 
+    /// The id for the next database: the number of databases, skipping the ids already in
+    /// use (after a partial reload from disk the ids in use are not necessarily 0..n)
+    pub fn next_db_id(&self) -> usize {
+        let dbs = self.map.read().expect("could not get lock");
+        let ids = self.id_name_db_map.read().unwrap();
+        let mut id = dbs.len();
+        while ids.contains_key(&(id as u64)) {
+            id = id + 1;
+        }
+        id
+    }
+
     pub fn get_role(&self) -> ClusterRole {
         let role_int = (*self.node_state).load(Ordering::SeqCst);
         return ClusterRole::from(role_int);
